@@ -13,7 +13,7 @@ import (
 
 func init() {
 	register(&Prop{ID: "C16", Gen: genC16, Oracle: oracleC16,
-		Rule: "same session generator as C08 (different random stream); the oracle uses starting files x (0-3 prefix ops, Cleanup, one bulk setter with distinct paths, Cleanup); plus the family 'exclude order across the go-version threshold' in generator and oracle (go versions of every digit-count class of major/minor, with patch/pre-release parts, x exclude blocks with several versions of one path whose lexical and semantic orders differ, x bulk setter; the oracle also sweeps minors 0-30 and the digit-count boundaries exhaustively); plus the family 'bulk setter on a require list with duplicate paths' in generator and oracle (files with 1-3 surplus duplicate require directives, same/other version and marking, x requested lists built from the file: every existing path kept as it stands / changed / dropped, plus about as many new paths as there are surplus directives; the oracle also sweeps all 2- and 3-directive files over two paths exhaustively); non-trivial = at least one op hits a line of the starting file; distinct by op line"})
+		Rule: "same session generator as C08 (different random stream); the oracle uses starting files x (0-3 prefix ops, Cleanup, one bulk setter with distinct paths, Cleanup); plus the family 'exclude order across the go-version threshold' in generator and oracle (go versions of every digit-count class of major/minor, with patch/pre-release parts, x exclude blocks with several versions of one path whose lexical and semantic orders differ, x bulk setter; the oracle also sweeps minors 0-30 and the digit-count boundaries exhaustively); plus the family 'bulk setter on a require list with duplicate paths' in generator and oracle (files with 1-3 surplus duplicate require directives, same/other version and marking, x requested lists built from the file: every existing path kept as it stands / changed / dropped, plus about as many new paths as there are surplus directives; the oracle also sweeps all 2- and 3-directive files over two paths exhaustively); plus the family 'bulk setter directly on a freshly parsed file with empty blocks' in generator and oracle (starting files with 1-3 EMPTY blocks of every verb - require, exclude, replace, retract, tool, godebug; go.work use, replace, godebug - at every statement boundary incl. top and end of file, forms `v ()`, `v ( )`, `v (` `)`, blank line inside, commented forms, x requested lists with at least one new direct and one new indirect path, x mostly NO Cleanup between Parse and the setter, sometimes adding operations that fill the empty block first or a general history; the oracle also sweeps an empty require / use block before, after and between every shape of other require / use statement exhaustively); non-trivial = at least one op hits a line of the starting file; distinct by op line"})
 }
 
 func genC16(g *Gen, n int) {
@@ -33,6 +33,32 @@ func genC16(g *Gen, n int) {
 		}
 		if edEmitSession {
 			g.Emit(edSessionLine(false, file, ops), hit, tags...)
+		}
+	}
+	// the family "bulk setter directly on a parsed file with empty blocks" (see util_c16empty.go)
+	for i := 0; i < n/8+16; i++ {
+		work := g.Chance(20)
+		file, ops, raw := edC16EmptySession(g.Rand, work)
+		hit := edC16HitW(work, file, ops)
+		tags := []string{"empty-blocks", "len:" + sizeBucket(len(ops))}
+		if work {
+			tags = append(tags, "go.work")
+		} else {
+			tags = append(tags, "go.mod")
+		}
+		if raw {
+			tags = append(tags, "no-cleanup-before-bulk:fresh-file")
+		}
+		for _, o := range ops {
+			tags = append(tags, "op:"+o.Name)
+		}
+		if edEmitAbs {
+			if run := edRunSession(work, file, nil); !run.ParseErr {
+				g.Emit(edAbsStepLine(work, run.Start, ops), hit, tags...)
+			}
+		}
+		if edEmitSession {
+			g.Emit(edSessionLine(work, file, ops), hit, tags...)
 		}
 	}
 	// the family "bulk setter on a require list with duplicate paths" (see edC16DupSession)
@@ -672,11 +698,26 @@ func edOneUncommented(fs *modfile.FileSyntax) bool {
 
 // edCheckC16: ops must end with <bulk setter>, cleanup; everything before is the prefix.
 func edCheckC16(work bool, file string, ops []edOp) (sig, info string) {
+	return edCheckC16Mode(work, file, ops, false)
+}
+
+// edCheckC16Raw: the same checks, but the setter is applied to the parsed file (plus prefix) as it stands, with NO
+// Cleanup in front (see util_c16empty.go); the prefix must not leave cleared entries behind.
+func edCheckC16Raw(work bool, file string, ops []edOp) (sig, info string) {
+	return edCheckC16Mode(work, file, ops, true)
+}
+
+func edCheckC16Mode(work bool, file string, ops []edOp, raw bool) (sig, info string) {
 	if len(ops) < 2 || ops[len(ops)-1].Name != "cleanup" || !edIsBulk(ops[len(ops)-2].Name) {
 		return "", ""
 	}
 	set := ops[len(ops)-2]
-	pre := edRunSession(work, file, ops[:len(ops)-2]) // ends with the implicit Cleanup
+	var pre *edRun
+	if raw {
+		pre = edC16RunRaw(work, file, ops[:len(ops)-2]) // no Cleanup
+	} else {
+		pre = edRunSession(work, file, ops[:len(ops)-2]) // ends with the implicit Cleanup
+	}
 	if pre.ParseErr || pre.Panic != "" {
 		return "", ""
 	}
@@ -870,7 +911,7 @@ func edCheckC16(work bool, file string, ops []edOp) (sig, info string) {
 				}
 			}
 			if d > 0 && ind > 0 {
-				return "c16-separate-blocks", ""
+				return "c16-separate-blocks", itoa(d) + " direct and " + itoa(ind) + " indirect requirements share a block: " + strings.ReplaceAll(string(out), "\n", "\\n")
 			}
 		}
 	}
@@ -963,19 +1004,20 @@ func oracleC16(g *Gen, n int) {
 		}
 	}
 	// report: shrink the prefix and the starting file (never the bulk setter), then record the failure
-	report := func(work bool, file string, ops []edOp, sig string) {
+	reportMode := func(work bool, file string, ops []edOp, sig string, raw bool) {
 		seen[sig] = true
 		pre := ops[:len(ops)-2]
 		tail := ops[len(ops)-2:]
 		chk := func(w bool, f string, o []edOp) (string, string) {
-			return edCheckC16(w, f, append(append([]edOp{}, o...), tail...))
+			return edCheckC16Mode(w, f, append(append([]edOp{}, o...), tail...), raw)
 		}
 		pre = edShrink(work, file, pre, sig, chk)
 		file = edShrinkFile(work, file, pre, sig, chk)
 		ops = append(append([]edOp{}, pre...), tail...)
-		_, info := edCheckC16(work, file, ops)
+		_, info := edCheckC16Mode(work, file, ops, raw)
 		g.Fail(sig, info+" || file: "+strings.ReplaceAll(file, "\n", "\\n"), edSessionLine(work, file, ops))
 	}
+	report := func(work bool, file string, ops []edOp, sig string) { reportMode(work, file, ops, sig, false) }
 	for i := 0; i < n; i++ {
 		work := g.Chance(25)
 		file, ops, _ := edGenSession(g.Rand, work)
@@ -1057,6 +1099,27 @@ func oracleC16(g *Gen, n int) {
 		g.Case("c16-require-dups:" + ops[len(ops)-2].Name)
 		if sig, _ := edCheckC16(false, file, ops); sig != "" && !seen[sig] {
 			report(false, file, ops, sig)
+		}
+	}
+	// The class "bulk setter directly on a parsed file with empty blocks" (see util_c16empty.go): the exhaustive
+	// small-scope sweep, then the random family.  Sessions with a general history keep the Cleanup before the
+	// setter and are checked as before; the others are checked without it.
+	edC16EmptySweep(func(work bool, file string, ops []edOp) {
+		g.Case("c16-empty-blocks:sweep:" + ops[len(ops)-2].Name)
+		if sig, _ := edCheckC16Raw(work, file, ops); sig != "" && !seen[sig] {
+			reportMode(work, file, ops, sig, true)
+		}
+	})
+	for i := 0; i < n/4+32; i++ {
+		work := g.Chance(20)
+		file, ops, raw := edC16EmptySession(g.Rand, work)
+		tag := "c16-empty-blocks:"
+		if raw {
+			tag += "fresh-file:"
+		}
+		g.Case(tag + ops[len(ops)-2].Name)
+		if sig, _ := edCheckC16Mode(work, file, ops, raw); sig != "" && !seen[sig] {
+			reportMode(work, file, ops, sig, raw)
 		}
 	}
 }
